@@ -77,18 +77,19 @@ Definition tx_events (sc : schema) (topo : list nat) (ops : list sched_op) (hl :
       | Some e =>
         if Bool.eqb (is_final_key (hl_key e)) fin
         then ops_at ops (PHandler h) {| v_active := hl_active e; v_clock := hl_clock e;
-                                        v_qtick := qt; v_running := true; v_window := false |}
+                                        v_qtick := qt; v_running := true; v_window := false;
+                                        v_applied := fin |}
         else []
       | None => []
       end) hs in
   let act := activated sc r in
   let deact := deactivated sc topo r in
   let vapp := {| v_active := tx_target r; v_clock := tx_after r; v_qtick := qt; v_running := true;
-                 v_window := true |} in
+                 v_window := true; v_applied := true |} in
   let vsub := {| v_active := tx_target r; v_clock := tx_mach_after r; v_qtick := qt;
-                 v_running := true; v_window := false |} in
+                 v_running := true; v_window := false; v_applied := true |} in
   let vend := {| v_active := odd_states (tx_mach_after r); v_clock := tx_mach_after r;
-                 v_qtick := qt; v_running := true; v_window := false |} in
+                 v_qtick := qt; v_running := true; v_window := false; v_applied := false |} in
   hops false
   ++ ops_at ops (PApplied j) vapp
   ++ (if tx_applied r then [EStateCtx act deact] else [])
@@ -117,7 +118,7 @@ Fixpoint calls_events (sc : schema) (topo : list nat) (ops : list sched_op) (hl 
   | co :: rest =>
     let n := co_ntx co - j in
     let v' := {| v_active := co_active co; v_clock := co_time co; v_qtick := co_qtick co;
-                 v_running := false; v_window := false |} in
+                 v_running := false; v_window := false; v_applied := false |} in
     ops_at ops (PCall c) v
     ++ txs_events sc topo ops hl j (v_qtick v) (firstn n txs)
     ++ [EQueueEnd; EPoll]
@@ -127,7 +128,7 @@ Fixpoint calls_events (sc : schema) (topo : list nat) (ops : list sched_op) (hl 
 Definition init_view (n : nat) (init : list nat) : view :=
   {| v_active := init;
      v_clock := map (fun i => if mem i init then 1%N else 0%N) (seq 0 n);
-     v_qtick := 1; v_running := false; v_window := false |}.
+     v_qtick := 1; v_running := false; v_window := false; v_applied := false |}.
 
 Definition events_of (sc : schema) (topo : list nat) (init : list nat) (tr : trace)
   (ops : list sched_op) : list sevent :=
